@@ -176,6 +176,16 @@ def main(argv=None):
     MAX_REPLAYS = int(os.environ.get('VERIF_MAX_REPLAYS', '12'))
     order = sorted(groups.items(), key=lambda kv: (kv[1][0]['role'] == 'aux', kv[0]))
 
+    known_pid = [f for f in known if f.get('property') == pid and f.get('status', 'open') == 'open']
+
+    def hints(ob):
+        base = re.sub(r'/\d+$', '', ob['name'])
+        mine = [f for f in known_pid if f.get('obligation') in (base, ob['name'])]
+        return {'want_signature': mine[0].get('witness_signature') if mine else None,
+                'skip_signatures': [f.get('witness_signature') for f in known
+                                    if f not in mine and f.get('status', 'open') == 'open'
+                                    and f.get('witness_signature')]}
+
     def investigate(ob):
         outcome = None
         if not replay_mod:
@@ -184,8 +194,8 @@ def main(argv=None):
             outcome = native(replay_mod, {'mode': 'replay', 'property': pid, 'obligation': ob,
                                           'seed': seed})
             if outcome.get('status') != 'reproduced':
-                o2 = native(replay_mod, {'mode': 'search', 'property': pid, 'obligation': ob,
-                                         'seed': seed, 'tier': tier})
+                o2 = native(replay_mod, dict({'mode': 'search', 'property': pid, 'obligation': ob,
+                                              'seed': seed, 'tier': tier}, **hints(ob)))
                 if o2.get('status') == 'reproduced':
                     outcome = o2
         elif ob['result'] in ('unknown', 'candidate-finite-scope'):
@@ -194,8 +204,8 @@ def main(argv=None):
                                               'obligation': ob, 'seed': seed})
                 if outcome.get('status') == 'reproduced':
                     return outcome
-            outcome = native(replay_mod, {'mode': 'search', 'property': pid, 'obligation': ob,
-                                          'seed': seed, 'tier': tier})
+            outcome = native(replay_mod, dict({'mode': 'search', 'property': pid, 'obligation': ob,
+                                               'seed': seed, 'tier': tier}, **hints(ob)))
         return outcome
     from concurrent.futures import ThreadPoolExecutor
     heads = [obs_[0] for _, obs_ in order]
